@@ -113,6 +113,7 @@ pub struct ShadowStats {
     pub rollback_after_cut: u64,
     pub atomic_commits_checked: u64,
     pub neglook_unwinds_checked: u64,
+    pub neglook_group_checks: u64,
     pub epsilon_guard_fired: u64,
     pub max_depth: usize,
     pub max_aux: usize,
@@ -293,9 +294,14 @@ impl Shadow {
                 Insn::EndAtomic => {
                     if let Some(b) = open.pop() {
                         self.end_to_begin.insert(pc, b);
-                        // a conditional: BeginAtomic, Split(_, false_pc) with false_pc beyond the End
-                        if let Some(Insn::Split(_, y)) = prog.get(b + 1) {
-                            if *y > pc {
+                        // a conditional, exactly as compile_conditional lays it out:
+                        //   b: BeginAtomic; Split(b+2, F); cond; EndAtomic; true; F-1: Jmp(T); F: false; T:
+                        // with F beyond the End and the Jmp before F going forward over the false
+                        // branch (a loop that jumps back to b has the same first two instructions
+                        // and is not the listed call site)
+                        if let Some(Insn::Split(x, y)) = prog.get(b + 1) {
+                            let fwd_jmp = *y > 0 && matches!(prog.get(*y - 1), Some(Insn::Jmp(t)) if *t >= *y);
+                            if *x == b + 2 && *y > pc && fwd_jmp {
                                 self.cond_begins.insert(b);
                             }
                         }
